@@ -149,6 +149,16 @@ def gen_c05(tier, rng):
         ops.append("dec d pending")
         exp.append("pending 0")
         cases.append(Case("c05", ops, nontrivial=True, tags=("interleave%d" % k,), meta={"expected": exp}))
+    # a message whose segments declare more than 65535 bytes in total (the wire format's 16-bit length is per segment).
+    # Deterministic on purpose: this is the input of the open finding recorded in known-findings.txt.
+    ops, exp, total = [], [], b""
+    for k in range(45):
+        seg = 0x04 if k == 0 else (0x0C if k == 44 else 0x08)
+        body = bytes([(k * 7 + i) % 256 for i in range(1500)])
+        total += body
+        ops.append(feed(frame_header(1, 1, 1, 1, 100 + k) + message(5, 6, seg, 0x05, body)))
+        exp.append("pk 0" if k < 44 else "pk 1 00000105:1:1:1:0:5:6:0:4:0:1:%d:%s" % (len(total), total.hex()))
+    cases.append(Case("c05big", ops, nontrivial=True, tags=("over-65535",), meta={"expected": exp, "noshrink": True}))
     # exhaustive: all interleavings of two 3-frame streams
     for rep in range(2 if tier == "quick" else 10):
         a = SegStream(rng, 1, 1, 1, max_seg=5).frames[:]
